@@ -2,6 +2,7 @@ import EupsModel.Drv.Util
 import EupsModel.Model.Cond
 import EupsModel.Model.CondPinned
 import EupsModel.Model.TableParse
+import EupsModel.Model.SetupType
 namespace EupsModel.Drv.C11
 open Lean EupsModel EupsModel.Drv EupsModel.Cond EupsModel.TableParse
 
@@ -26,6 +27,7 @@ def extraJson : Extra → Json
   | .none => Json.mkObj []
   | .optional b => Json.mkObj [("optional", b)]
   | .append b => Json.mkObj [("append", b)]
+  | .implicit => Json.mkObj [("optional", true), ("silent", true)]
 
 def actionJson (a : Action) : Json :=
   Json.mkObj [("cmd", ofStr a.cmd), ("args", ofStrs a.args), ("extra", extraJson a.extra)]
@@ -60,10 +62,54 @@ def handle : Handler := fun j => do
     pure (resBool (CondPinned.evalCond (← envOf j) (fuelFor text) text))
   | "table" =>
     let v ← variantOf j
-    match tableActions v (← jstrOpt j "pdir") (← envOf j) (← jstr j "text") with
+    -- optional "dflt": {"name": …, "version": null | …, "tag": null | …} = hooks.config.Eups.defaultProduct
+    let dflt : Option DefaultProduct ← match j.getObjVal? "dflt" with
+      | .ok (Json.obj _) => do
+        let d ← j.getObjVal? "dflt"
+        pure (some { name := ← jstr d "name", version := ← jstrOpt d "version", tag := ← jstrOpt d "tag" })
+      | _ => pure none
+    let pdir ← jstrOpt j "pdir"
+    let env ← envOf j
+    let text ← jstr j "text"
+    let res := match dflt with
+      | none => tableActions v pdir env text
+      | some d => tableActionsD v pdir (some d) env text
+    match res with
     | .ok as => pure (Json.mkObj [("out", "ok"), ("actions", Json.arr (as.map actionJson).toArray)])
     | .err e => pure (errJson e)
     | .fuel => pure (Json.mkObj [("out", "fuel")])
+  | "declopts" =>
+    let v ← variantOf j
+    let dictJson (d : Dict) : Json := Json.arr (d.map fun p => Json.arr #[ofStr p.1, ofStr p.2]).toArray
+    let trap := match j.getObjVal? "trap" with | .ok (Json.bool b) => b | _ => false
+    if trap then
+      match tableDeclOptsPinned v (← jstrOpt j "pdir") (← envOf j) (← jstr j "text") with
+      | .ok (some d) => pure (Json.mkObj [("out", "ok"), ("opts", dictJson d)])
+      | .ok none => pure (Json.mkObj [("out", "err"), ("err", "PdbTrap")])
+      | .err e => pure (errJson e)
+      | .fuel => pure (Json.mkObj [("out", "fuel")])
+    else
+      match tableDeclOpts v (← jstrOpt j "pdir") (← envOf j) (← jstr j "text") with
+      | .ok d => pure (Json.mkObj [("out", "ok"), ("opts", dictJson d)])
+      | .err e => pure (errJson e)
+      | .fuel => pure (Json.mkObj [("out", "fuel")])
+  | "setuptype" =>
+    -- {"arg": null | "text" | ["t", …], "exact": bool, "valid": […], "via": "init" | "cmd" | "setup"}
+    let valid ← jstrs j "valid"
+    let exact := match j.getObjVal? "exact" with | .ok (Json.bool b) => b | _ => false
+    let via := match j.getObjVal? "via" with | .ok (Json.str s) => s | _ => "init"
+    let arg : SetupType.Arg ← match j.getObjVal? "arg" with
+      | .ok (Json.str _) => do
+        let s ← jstr j "arg"
+        pure (if via == "cmd" then SetupType.cmdArg s else SetupType.Arg.str s)
+      | .ok (Json.arr _) => do pure (SetupType.Arg.list (← jstrs j "arg"))
+      | _ => pure SetupType.Arg.none
+    match SetupType.normTypes valid arg exact with
+    | some (ts, ex) => pure (Json.mkObj [("out", "ok"), ("types", ofStrs ts), ("exact", ex)])
+    | none => pure (Json.mkObj [("out", "err"), ("err", "EupsException")])
+  | "deptypes" =>
+    let fe := match j.getObjVal? "followExact" with | .ok (Json.bool b) => b | _ => false
+    pure (Json.mkObj [("out", "ok"), ("types", ofStrs (SetupType.depTypes fe (← jstrs j "types")))])
   | "parse" =>
     let v ← variantOf j
     match parse v (← jstrOpt j "pdir") (← jstr j "text") with
